@@ -29,16 +29,16 @@ const (
 
 // App is a workload.
 type App struct {
-	Kind     string // sts, dp, tapp, foo (unknown owner kind), bare
-	NS, Name string
-	Policy   string // "", immutable, never
-	Pool     string
-	Replicas int
-	Exists   bool       // the workload object exists in the API
-	Ranges   [][]string // request_ip_range for its pods
-	rsGen    int
-	podSeq   int
-	Deleted  bool // app object deleted (pods may linger)
+	Kind      string // sts, dp, tapp, foo (unknown owner kind), bare
+	NS, Name  string
+	Policy    string // "", immutable, never
+	Pool      string
+	Replicas  int
+	Exists    bool       // the workload object exists in the API
+	Ranges    [][]string // request_ip_range for its pods
+	rsGen     int
+	podSeq    int
+	Deleted   bool   // app object deleted (pods may linger)
 	OwnerKind string // for Kind foo: the (unknown) owner kind of its pods, e.g. Foo, Wordpress, Redis
 }
 
@@ -104,7 +104,7 @@ type PodInfo struct {
 	IPs           []string // from the binding annotation
 	IPInfos       []ipInfoJSON
 	BoundStep     int
-	Index         int // ordinal for sts/tapp pods, -1 otherwise
+	Index         int        // ordinal for sts/tapp pods, -1 otherwise
 	Ranges        [][]string // request_ip_range of this pod (the workload's template may change later)
 }
 
@@ -226,7 +226,7 @@ func profileFor(prop string) Profile {
 		p.Probe = "memcheck"
 		p.Reload, p.AdminRelease = true, true
 		p.Reserve = true // an administrator's labelled FloatingIP objects change the tables through watch events
-		p.Ranges = true // multi-IP requests: the rollback path of AllocateInSubnetsAndIPRange is part of "every operation"
+		p.Ranges = true  // multi-IP requests: the rollback path of AllocateInSubnetsAndIPRange is part of "every operation"
 		p.Ops = [2]int{6, 18}
 	case "C06":
 		p.Probe = "c06"
@@ -266,10 +266,10 @@ type World struct {
 	podByUID map[string]*PodInfo // every pod ever created (kept after deletion)
 	gone     map[string]bool     // uid -> deleted from API
 
-	inst    *Instance
-	proc    int
-	ready   bool
-	crashed bool
+	inst      *Instance
+	proc      int
+	ready     bool
+	crashed   bool
 	withCloud bool
 
 	phase     int // 0 init, 1 work, 2 drain, 3 final checks, 4 post-resync drain, 5 done
@@ -280,47 +280,47 @@ type World struct {
 	inflight  []*core.Task          // admin/resync/... tasks in flight
 
 	// faults
-	faultMode   int // 0 none, 1 single, 2 rate
-	faultAt     int
-	faultRate   int
-	lostReply   bool
-	apiCalls    int
-	cloudErr    int // per-mille
-	faultsOn    bool
+	faultMode int // 0 none, 1 single, 2 rate
+	faultAt   int
+	faultRate int
+	lostReply bool
+	apiCalls  int
+	cloudErr  int // per-mille
+	faultsOn  bool
 
-	cloud     map[string]string // ip -> node as the provider sees it
-	cloudLog  []string
+	cloud    map[string]string // ip -> node as the provider sees it
+	cloudLog []string
 
-	key     string // finding key of the violation
-	summary []string
-	memdump map[string][]memEntry
-	finalStage int
-	resyncDone bool
-	dumpWanted string
-	http    []httpReport
-	states  []string
+	key                            string // finding key of the violation
+	summary                        []string
+	memdump                        map[string][]memEntry
+	finalStage                     int
+	resyncDone                     bool
+	dumpWanted                     string
+	http                           []httpReport
+	states                         []string
 	opGap, lastOpStep, lastAdvStep int
-	unsched map[string]bool
-	M       *modelState
-	taskSeq int
-	probe            *probeState
-	wantProbe        string
-	probeSeq         int
-	probeFaultsSaved bool
-	lostReplies      int
-	staleFips        []*FipInfo // entries of earlier listings an administrator may still act on
-	poolBodies       map[string][][]byte // pool name -> bodies of earlier create-or-update requests
-	aheadNum         int                 // of 8: how often kube-scheduler works on a pod galaxy-ipam's informer has not seen yet (per-run swarm parameter)
-	plan             *faultPlan
-	planFired        bool
-	recovering       bool
-	schedBefore      map[string][]string
-	schedTouched     map[string]bool
-	hostileSeq        int
-	settleRounds      int
-	periodicReload    *core.Task
-	stalled           map[*core.Task]int // task -> scheduler step until which it is not scheduled (sched.stall)
-	hostileConfActive bool
+	unsched                        map[string]bool
+	M                              *modelState
+	taskSeq                        int
+	probe                          *probeState
+	wantProbe                      string
+	probeSeq                       int
+	probeFaultsSaved               bool
+	lostReplies                    int
+	staleFips                      []*FipInfo          // entries of earlier listings an administrator may still act on
+	poolBodies                     map[string][][]byte // pool name -> bodies of earlier create-or-update requests
+	aheadNum                       int                 // of 8: how often kube-scheduler works on a pod galaxy-ipam's informer has not seen yet (per-run swarm parameter)
+	plan                           *faultPlan
+	planFired                      bool
+	recovering                     bool
+	schedBefore                    map[string][]string
+	schedTouched                   map[string]bool
+	hostileSeq                     int
+	settleRounds                   int
+	periodicReload                 *core.Task
+	stalled                        map[*core.Task]int // task -> scheduler step until which it is not scheduled (sched.stall)
+	hostileConfActive              bool
 }
 
 func (w *World) fail(oracle, key, format string, a ...interface{}) {
@@ -756,6 +756,9 @@ func (w *World) handleReport(t *core.Task, r *core.Req) core.Resp {
 		w.onHTTP(&hr)
 		return core.Resp{}
 	case "w.resynced", "w.reloaded", "w.queuelen", "w.collected":
+		return core.Resp{}
+	case "w.crd-informer-synced":
+		w.S.Stat("crd.informer-started-and-synced")
 		return core.Resp{}
 	case "w.probe.filtered":
 		var fr filterReport
